@@ -96,11 +96,180 @@ func genName(t *rapid.T, level int, usedHostile *bool) string {
 	case level == 1:
 		if rapid.IntRange(0, 3).Draw(t, "hostile") == 0 {
 			*usedHostile = true
-			return rapid.SampledFrom(hostileNames).Draw(t, "name")
+			return genHostileName(t)
 		}
 		return rapid.SampledFrom(validNames).Draw(t, "vname")
 	}
+	return genHostileName(t)
+}
+
+// one hostile name: from the table, or (one draw in three) a generated
+// disguise of .git / .gitmodules
+func genHostileName(t *rapid.T) string {
+	if rapid.IntRange(0, 2).Draw(t, "generated") == 0 {
+		return genDisguise(t)
+	}
 	return rapid.SampledFrom(hostileNames).Draw(t, "name")
+}
+
+var hfsIgnorable = []rune{0x200c, 0x200d, 0x200e, 0x200f, 0x202a, 0x202b, 0x202c, 0x202d, 0x202e,
+	0x206a, 0x206b, 0x206c, 0x206d, 0x206e, 0x206f, 0xfeff}
+
+// genDisguise draws a name that some filesystem resolves to ".git" (mostly) or
+// ".gitmodules": letters in any case, and either
+//   - hfs: a run of HFS+-ignorable code points in the gaps of the name (before
+//     the dot, between any two characters, after the last): in one gap, in a
+//     random subset of the gaps, or in every gap; each run 1..4 code points long,
+//     each code point drawn from the whole ignorable set; or
+//   - ntfs: the name or its 8.3 short name followed by a run of 1..4 trailing
+//     dots/spaces, an alternate data stream, or both; or
+//   - case: nothing but the case variation.
+func genDisguise(t *rapid.T) string {
+	needle := rapid.SampledFrom([]string{".git", ".git", ".git", ".git", ".gitmodules"}).Draw(t, "needle")
+	kind := rapid.SampledFrom([]string{"hfs", "hfs", "hfs", "ntfs", "ntfs", "case"}).Draw(t, "disguise")
+	base := []rune(needle)
+	if kind == "ntfs" && rapid.IntRange(0, 3).Draw(t, "shortname") == 0 {
+		base = []rune(map[string]string{".git": "git~1", ".gitmodules": "gitmod~" + rapid.SampledFrom([]string{"1", "2", "4"}).Draw(t, "shortno")}[needle])
+	}
+	switch rapid.SampledFrom([]string{"lower", "lower", "upper", "mixed", "mixed"}).Draw(t, "case") {
+	case "upper":
+		base = []rune(strings.ToUpper(string(base)))
+	case "mixed":
+		for i, r := range base {
+			if r >= 'a' && r <= 'z' && rapid.Bool().Draw(t, "up") {
+				base[i] = r - 'a' + 'A'
+			}
+		}
+	}
+	switch kind {
+	case "hfs":
+		gaps := len(base) + 1
+		runs := make([]int, gaps)
+		runLen := rapid.SampledFrom([]int{1, 1, 2, 2, 3, 4})
+		switch rapid.SampledFrom([]string{"one-gap", "one-gap", "some-gaps", "some-gaps", "every-gap"}).Draw(t, "gaps") {
+		case "one-gap":
+			runs[rapid.IntRange(0, gaps-1).Draw(t, "gap")] = runLen.Draw(t, "run")
+		case "some-gaps":
+			for i := range runs {
+				if rapid.Bool().Draw(t, "fill") {
+					runs[i] = runLen.Draw(t, "run")
+				}
+			}
+			if !slicesAny(runs) {
+				runs[rapid.IntRange(0, gaps-1).Draw(t, "gap")] = runLen.Draw(t, "run")
+			}
+		default:
+			for i := range runs {
+				runs[i] = runLen.Draw(t, "run")
+			}
+		}
+		var sb strings.Builder
+		for i := 0; i < gaps; i++ {
+			for k := 0; k < runs[i]; k++ {
+				sb.WriteRune(rapid.SampledFrom(hfsIgnorable).Draw(t, "ignorable"))
+			}
+			if i < len(base) {
+				sb.WriteRune(base[i])
+			}
+		}
+		return sb.String()
+	case "ntfs":
+		name := string(base)
+		tail := rapid.SampledFrom([]string{"run", "run", "run", "stream", "run+stream"}).Draw(t, "tail")
+		if tail != "stream" {
+			n := rapid.IntRange(1, 4).Draw(t, "run")
+			for k := 0; k < n; k++ {
+				name += rapid.SampledFrom([]string{".", " "}).Draw(t, "trailing")
+			}
+		}
+		if tail != "run" {
+			name += rapid.SampledFrom([]string{"::$INDEX_ALLOCATION", ":x", ":$DATA", ":"}).Draw(t, "stream")
+		}
+		return name
+	}
+	return string(base)
+}
+
+func slicesAny(l []int) bool {
+	for _, v := range l {
+		if v != 0 {
+			return true
+		}
+	}
+	return false
+}
+
+// foldName is a name as a case-insensitive volume that drops HFS+-ignorable
+// code points sees it.
+func foldName(n string) string {
+	var sb strings.Builder
+	for _, r := range n {
+		if !isIgnorableHFS(r) {
+			sb.WriteRune(r)
+		}
+	}
+	return strings.ToLower(sb.String())
+}
+
+// disguiseShapes labels the generated classes of .git equivalents among the
+// components of a tree (any depth).
+func disguiseShapes(es []RawEntry, out map[string]bool) {
+	for _, e := range es {
+		for _, c := range strings.FieldsFunc(e.Name, func(r rune) bool { return r == '/' || r == '\\' }) {
+			switch {
+			case c == ".git":
+			case strings.EqualFold(c, ".git"):
+				out["tree:dotgit-case-variant"] = true
+			case hfsEquivalentDotGit(c):
+				// runs of ignorables; inner = between the dot and the last letter
+				rs := []rune(c)
+				longest, inner := 0, 0
+				for i := 0; i < len(rs); {
+					if !isIgnorableHFS(rs[i]) {
+						i++
+						continue
+					}
+					j := i
+					for j < len(rs) && isIgnorableHFS(rs[j]) {
+						j++
+					}
+					longest = max(longest, j-i)
+					if i > 0 && j < len(rs) {
+						inner = max(inner, j-i)
+					}
+					i = j
+				}
+				if longest >= 2 {
+					out["tree:hfs-dotgit-run>=2"] = true
+				} else {
+					out["tree:hfs-dotgit-single-ignorables"] = true
+				}
+				if inner >= 2 {
+					out["tree:hfs-dotgit-inner-run>=2"] = true
+				}
+				if strings.ToLower(c) != c {
+					out["tree:hfs-dotgit-with-case-variant"] = true
+				}
+			case ntfsEquivalentDotGit(c):
+				l := strings.ToLower(c)
+				rest := strings.TrimPrefix(strings.TrimPrefix(l, ".git"), "git~1")
+				if i := strings.IndexByte(rest, ':'); i >= 0 {
+					rest = rest[:i]
+					out["tree:ntfs-dotgit-stream"] = true
+				}
+				switch {
+				case len(rest) >= 2:
+					out["tree:ntfs-dotgit-trailing-run>=2"] = true
+				case len(rest) == 1:
+					out["tree:ntfs-dotgit-trailing-single"] = true
+				}
+				if strings.HasPrefix(l, "git~1") {
+					out["tree:ntfs-dotgit-shortname"] = true
+				}
+			}
+		}
+		disguiseShapes(e.Kids, out)
+	}
 }
 
 func genEntry(t *rapid.T, depth, level int, name string) RawEntry {
@@ -113,7 +282,7 @@ func genEntry(t *rapid.T, depth, level int, name string) RawEntry {
 	switch k {
 	case "f", "x":
 		e.Data = rapid.SampledFrom([]string{"P1", "P2", "P3"}).Draw(t, "payload")
-		if strings.Contains(strings.ToLower(name), "gitmod") && rapid.Bool().Draw(t, "modspec") {
+		if strings.Contains(foldName(name), "gitmod") && rapid.Bool().Draw(t, "modspec") {
 			e.Data = "@MOD:" + rapid.SampledFrom(modNames).Draw(t, "modname") + "\x1f" + rapid.SampledFrom(modPaths).Draw(t, "modpath")
 		}
 	case "l":
@@ -323,7 +492,16 @@ func gen(t *rapid.T, _ *evid.Recorder) Case {
 		c.C2 = mutate(t, c.C1, 2, level)
 	}
 	c.ProtectNTFS = rapid.SampledFrom([]string{"", "", "true", "false"}).Draw(t, "ntfs")
-	c.ProtectHFS = rapid.SampledFrom([]string{"", "", "true", "false"}).Draw(t, "hfs")
+	// protectHFS is off unless configured: when a tree carries an HFS disguise the
+	// setting under which it is judged is drawn more often
+	shapes := map[string]bool{}
+	disguiseShapes(c.C1, shapes)
+	disguiseShapes(c.C2, shapes)
+	if shapes["tree:hfs-dotgit-run>=2"] || shapes["tree:hfs-dotgit-single-ignorables"] {
+		c.ProtectHFS = rapid.SampledFrom([]string{"", "true", "true", "false"}).Draw(t, "hfs")
+	} else {
+		c.ProtectHFS = rapid.SampledFrom([]string{"", "", "true", "false"}).Draw(t, "hfs")
+	}
 	c.Base = rapid.SampledFrom([]string{"bound", "bound", "bound", "naive", "naive", "plain"}).Draw(t, "base")
 	var dirs, leaves []string
 	treePaths(c.C1, "", &dirs, &leaves)
@@ -610,7 +788,7 @@ func hostile(es []RawEntry) (n int, swapNames map[string]string) {
 				bad = true
 			}
 		}
-		if strings.ContainsAny(e.Name, "/\\") || strings.Contains(strings.ToLower(e.Name), "gitmod") && e.Kind == "l" {
+		if strings.ContainsAny(e.Name, "/\\") || strings.Contains(foldName(e.Name), "gitmod") && e.Kind == "l" {
 			bad = true
 		}
 		if e.Kind == "l" && (strings.Contains(e.Data, "..") || strings.Contains(e.Data, ".git") || strings.HasPrefix(e.Data, "@ABS")) {
@@ -904,6 +1082,15 @@ func check(c Case) evid.Result {
 	res.NonTrivial = h1+h2 > 0 || planted > 0
 	if h1+h2 > 0 {
 		res.Labels = append(res.Labels, "tree:hostile")
+	}
+	shapes := map[string]bool{}
+	disguiseShapes(c.C1, shapes)
+	disguiseShapes(c.C2, shapes)
+	for _, k := range wtgen.SortedKeys(shapes) {
+		res.Labels = append(res.Labels, k)
+		if hfs && strings.HasPrefix(k, "tree:hfs-") {
+			res.Labels = append(res.Labels, k+"+protectHFS")
+		}
 	}
 	if planted > 0 {
 		res.Labels = append(res.Labels, "planted")
